@@ -14,7 +14,7 @@ calls to library functions are inlined.  Loops and switches are outside the
 vocabulary (Unsupported).
 """
 from .build import Broken
-from .facts import strip, const_value
+from .facts import strip, const_value, strip_all_casts
 
 C0 = ("c", 0)
 C1 = ("c", 1)
@@ -458,6 +458,11 @@ class Interp:
                     return BV.const(const_value(n), w, sg)
         if k == "lit":
             if "cvf" in n:
+                try:
+                    if float(n["cvf"]) == 0.0 and not str(n["cvf"]).startswith("-"):
+                        return BV.const(0, (t or {}).get("bits", 32), False)  # +0.0 is the all-zero pattern
+                except (TypeError, ValueError):
+                    pass
                 raise Unsupported("floating literal")
             raise Unsupported("literal without value")
         if k == "ref":
@@ -535,6 +540,13 @@ class Interp:
             return self.call(n, env, depth)
         if k == "sizeof":
             raise Unsupported("sizeof without constant value")
+        if k == "initlist" and len(n.get("inits", [])) == 1 and (t or {}).get("k") in ("int", "enum", "bool", "float"):
+            v = self.ev(n["inits"][0], env, depth)  # scalar list-initialisation: T x{value}
+            w, sg = type_width(t)
+            return v.resize(w, sg) if v.w != w else BV(v.bits, sg)
+        if k == "initlist" and not n.get("inits") and (t or {}).get("k") in ("int", "enum", "bool", "float"):
+            w, sg = type_width(t)
+            return BV.const(0, w, sg)
         raise Unsupported("expression kind %s (%s)" % (k, n.get("cls", "")))
 
     def binop(self, op, a, b, t):
@@ -595,6 +607,16 @@ class Interp:
         c = n.get("callee") or {}
         if depth >= self.max_depth:
             raise Unsupported("inlining depth exceeded at %s" % c.get("name"))
+        if c.get("name") in ("memcpy", "std::memcpy", "memmove", "std::memmove") and len(n.get("args", [])) == 3:
+            # bit copy between two scalar variables of the same size: memcpy(&a, &b, sizeof a)
+            d, s_, ln = (strip_all_casts(a) for a in n["args"])
+            nbytes = const_value(ln)
+            if d.get("k") == "un" and d.get("op") == "&" and s_.get("k") == "un" and s_.get("op") == "&" and nbytes is not None:
+                dl, sl = self.lvalue(d["e"], env), self.lvalue(s_["e"], env)
+                if dl[0] == "var" and sl[0] == "var" and dl[2] == sl[2] == 8 * nbytes:
+                    env.vars[dl[1]] = BV(self.load(sl, env).bits, dl[3])
+                    return BV([], False)
+            raise Unsupported("memcpy that is not a whole-object copy between two scalars")
         g = self.fb.resolve_call(n)
         if g is None or g.body is None:
             raise Unsupported("call to %s (no body under the analysed root)" % c.get("name"))
@@ -602,6 +624,13 @@ class Interp:
         if c.get("name") == "ASAM::CMP::swapEndian" and c.get("ptypes") == ["const float"] or \
                 (c.get("name") == "ASAM::CMP::swapEndian" and c.get("ptypes") == ["float"]):
             v = self.ev(n["args"][0], env, depth)
+            try:
+                sub = Env(None, {g.params[0]["decl"]: BV(v.bits, False)}, None)
+                self.block(g.body, sub, depth + 1)
+                if sub.ret is not None and sub.done == C1 and sub.ret.w == 32:
+                    return BV(sub.ret.bits, False)
+            except Unsupported:
+                pass
             perm = self.float_swap(g)
             return BV([v.bits[8 * perm[i // 8] + i % 8] for i in range(32)], False)
         args = [self.ev(a, env, depth) for a in n.get("args", [])]
